@@ -149,6 +149,33 @@ def run(ctx):
         i = rng.randrange(-L, L)
         if impl.ops_of(lst[i]) != lst_ops[i]:
             ctx.fail('PauliList.__getitem__', 'integer index %d' % i, dict(ops=lst_ops))
+        # the same index expressions on the model (Model/Index.lean), error cases included
+        enc_rows = H.erows_ops(lst_ops)
+
+        def sel(expr):
+            try:
+                r_ = expr()
+                return impl.ops_of(r_) if hasattr(r_, 'gs') else [impl.ops_of(r_)]
+            except IndexError:
+                return 'err IndexError'
+            except ValueError:
+                return 'err ValueError'
+            except Exception as e_:
+                return impl.errname(e_)
+        dec_rows = lambda s_: H.drows_ops(s_.split(' ')[1]) if s_.startswith('ok ') else s_
+        for i2 in (i, rng.randrange(-L - 2, L + 2)):
+            ctx.q('getitem-int', 'getint %s %d' % (enc_rows, i2), sel(lambda: lst[i2]), dec_rows)
+        for _s in range(3):
+            a2 = rng.choice([None, rng.randrange(-L - 2, L + 3)]); b2 = rng.choice([None, rng.randrange(-L - 2, L + 3)]); st2 = rng.choice([1, 1, 2, 3, -1, -2, None])
+            got_ = sel(lambda: lst[a2:b2:st2])
+            ctx.q('getitem-slice', 'getslice %s %s %s %d' % (enc_rows, a2, b2, 1 if st2 is None else st2), got_ if got_ != [] else [], dec_rows)
+            if not isinstance(got_, str) and got_ != lst_ops[a2:b2:st2]:
+                ctx.fail('PauliList.__getitem__', 'slice %s:%s:%s' % (a2, b2, st2), dict(ops=lst_ops))
+        m2 = [rng.random() < 0.5 for _ in range(rng.choice([L, L, L, L + 1, max(L - 1, 0)]))]
+        if any(m2) or len(m2) != L:
+            ctx.q('getitem-mask', 'getmask %s %s' % (enc_rows, E.ebits(m2) if m2 else '_'), sel(lambda: lst[np.array(m2, dtype=bool)]), dec_rows)
+        ia2 = [rng.randrange(-L - 1, L + 1) for _ in range(rng.randrange(1, 5))]
+        ctx.q('getitem-index-array', 'getidx %s %s' % (enc_rows, E.eints(ia2)), sel(lambda: lst[np.array(ia2)]), dec_rows)
         a, b, st = rng.randrange(-L, L + 1), rng.randrange(-L, L + 1), rng.choice([1, 1, 2, -1])
         if impl.ops_of(lst[a:b:st]) != lst_ops[a:b:st]:
             ctx.fail('PauliList.__getitem__', 'slice %d:%d:%d' % (a, b, st), dict(ops=lst_ops))
